@@ -32,7 +32,7 @@ def _events(j, o):
 def run(ctx):
     ev = ctx.ev
     rng = random.Random(ctx.seed)
-    jobs, ndocs = build_jobs(ctx, rng, two_block_sample=500)
+    jobs, ndocs = build_jobs(ctx, rng, two_block_sample=900)
     hjobs, nh = heading_jobs(ctx, rng)
     jobs += hjobs
     ndocs += nh
